@@ -67,6 +67,50 @@ Theorem C03_master_rule_current :
 Proof. exact master_rule_current. Qed.
 Print Assumptions C03_master_rule_current.
 
+(** ... where "current" means: bound in the state committed by the PREVIOUS BLOCK of this node,
+    whatever the node did before.  The proof pool is an object of the node; its lookups go
+    through a view of the state.  For every history of commits, restarts and questions, a pool
+    that keeps no view (the code as it stands takes ledger.Copy() per lookup) - or any pool over
+    the simple ledger, whose Copy() is the live ledger - answers question [i] from the state
+    committed before it, and an OK for a locally originated IBTP means that the first available
+    rule bound in THAT state accepted the bytes *)
+Theorem C03_master_rule_current_pool :
+  forall (H : N -> N) (digest : N -> N -> N) (rule_validate : N -> N -> N -> N -> N -> option bool)
+         (recover : N -> N -> option N),
+  forall c n evs i ib p dec st,
+  d_memo_view c = false \/ snapshot_ledger c = false ->
+  nth_error evs i = Some (PCheck ib (PdBytes p dec)) ->
+  nth_error (pool_run H digest rule_validate recover c n evs) i = Some (Some (st, VOk)) ->
+  st = committed_at (n_committed n) evs i /\
+  (fst (origin ib) = ps_bxh st ->
+   H p = ib_proofhash ib /\
+   exists app r,
+     ps_chains st (snd (origin ib)) = Some app /\
+     master_rule st (snd (origin ib)) = Some r /\ r_available r = true /\ In r (ps_rules st (snd (origin ib))) /\
+     rule_validate (r_addr r) (snd (origin ib)) p (ib_id ib) (a_trust app) = Some true).
+Proof. exact master_rule_current_pool. Qed.
+Print Assumptions C03_master_rule_current_pool.
+
+Theorem C03_pool_is_spec :
+  forall (H : N -> N) (digest : N -> N -> N) (rule_validate : N -> N -> N -> N -> N -> option bool)
+         (recover : N -> N -> option N),
+  forall c, d_memo_view c = false \/ snapshot_ledger c = false ->
+  forall evs n, pool_run H digest rule_validate recover c n evs
+                = pool_spec H digest rule_validate recover (n_committed n) evs.
+Proof. exact pool_is_spec. Qed.
+Print Assumptions C03_pool_is_spec.
+
+(** a pool that memoises the view of its first lookup over a snapshot ledger (ledger.type =
+    "complex"): expected refutation - the junk proof is accepted after the master rule changed,
+    until the node restarts *)
+Theorem C03_memo_view_refuted :
+  answers (pool_run c_H c_digest c_rule c_recover cfg_memo {| n_committed := st_rule 0; n_view := None |} pool_hist)
+  = [None; Some VOk; None; Some VOk; None; Some (VErr 5)] /\
+  c_verify (st_rule 2) ib_local (PdBytes 901 None) = VErr 5 /\
+  master_accepts (st_rule 2) ib_local (PdBytes 901 None) = false.
+Proof. exact memo_view_refuted. Qed.
+Print Assumptions C03_memo_view_refuted.
+
 (** if every available rule carries the Master flag, the consulted rule is the master rule; the
     judge checks "accepted => the rule with the Master flag accepts" on implementation traces with
     the rule list read back from the real RuleManager state, so a flow that leaves a second,
